@@ -414,6 +414,186 @@ Proof.
       destruct (In_nth ops o dflt Hin) as (j & Hj & <-); apply Hk, Hj | exact Hlt].
     apply nth_error_nth'. unfold ad_opt_trace. rewrite trace_length. exact Hlt.
 Qed.
+
+(* ------------------------------------------------ random=True: second loop over a drawn permutation *)
+Lemma adr_shapes :
+  adupdates_random_lbody = [IFor ad_body1; IForOrd ad_body2; IStmt (LCallback (RVar "x"))]
+  /\ adupdates_simple_random_lbody = [IFor ad_body1; IForOrd ads_body2]
+  /\ adupdates_random_lpre = adupdates_lpre /\ adupdates_simple_random_lpre = adupdates_simple_lpre.
+Proof. repeat split. Qed.
+
+Lemma ad_loop2_ord : forall ord ve le h nx log x ds ts,
+  (forall j, In j ord -> (j < n_ops)%nat) ->
+  vget ve "x" = Some (OCaller "x") -> lget le "duals" = Some KComp -> lget le "tmp_rans" = Some KDict ->
+  hget h (OCaller "x") = Some x -> List.length ds = n_ops ->
+  (forall i, (i < n_ops)%nat -> hget h (OList "duals" i) = Some (nth i ds [])) ->
+  (forall k, (k < List.length ts)%nat -> hget h (ODict "tmp_rans" k) = Some (nth k ts [])) ->
+  (forall j, (j < n_ops)%nat -> (adkey j < List.length ts)%nat) ->
+  exists ve' h' nx',
+    lforl adI adkey ad_body2 ord (mk_lst ve le h nx log) = Some (mk_lst ve' le h' nx' log)
+    /\ vget ve' "x" = Some (OCaller "x")
+    /\ (let '(xf, ds', ts') := ad_sweep_ord_opt stepsize ops dflt ord ds ts x in
+        hget h' (OCaller "x") = Some xf
+        /\ List.length ds' = n_ops /\ (forall i, (i < n_ops)%nat -> hget h' (OList "duals" i) = Some (nth i ds' []))
+        /\ List.length ts' = List.length ts
+        /\ (forall k, (k < List.length ts)%nat -> hget h' (ODict "tmp_rans" k) = Some (nth k ts' []))).
+Proof.
+  induction ord as [|j ord IH]; intros ve le h nx log x ds ts Hord Hv Hl1 Hl2 Hx Hlen Hds Hts Hkeys.
+  - exists ve, h, nx. cbn [lforl ad_sweep_ord_opt]. repeat split; auto.
+  - cbn [lforl]. assert (Hj : (j < n_ops)%nat) by (apply Hord; now left).
+    pose proof (Hkeys j Hj) as Hk0.
+    destruct (ad_step2 j ve le h nx log x (nth j ds []) (nth (adkey j) ts []) Hv Hl1 Hl2 Hx (Hds j Hj) (Hts _ Hk0)
+                (scalar_inner j Hj)) as (ve1 & h1 & E1 & Hv1 & Hx1 & Hd1 & Ht1 & F1).
+    rewrite E1. cbn [obind].
+    set (o := nth j ops dflt) in *. set (d := nth j ds []) in *. set (p := ad_prox o (ad_arg stepsize o d x)) in *.
+    set (x1 := adup_x1 stepsize o x d) in *.
+    destruct (IH ve1 le h1 (S nx) log x1 (setnth j p ds) (setnth (adkey j) p ts)
+                ltac:(intros i Hi; apply Hord; now right) Hv1 Hl1 Hl2 Hx1 ltac:(now rewrite setnth_length))
+      as (ve2 & h2 & nx2 & E2 & Hv2 & Hres).
+    { intros i Hi. destruct (Nat.eq_dec i j) as [->|Hne].
+      - rewrite Hd1, nth_setnth_same by lia. reflexivity.
+      - rewrite F1 by oid_neq. rewrite nth_setnth_other by exact Hne. apply Hds, Hi. }
+    { intros k Hk. rewrite setnth_length in Hk. destruct (Nat.eq_dec k (adkey j)) as [->|Hne].
+      - rewrite Ht1, nth_setnth_same by exact Hk0. reflexivity.
+      - rewrite F1 by oid_neq. rewrite nth_setnth_other by exact Hne. apply Hts, Hk. }
+    { intros i Hi. rewrite setnth_length. apply Hkeys, Hi. }
+    exists ve2, h2, nx2. split; [exact E2|]. split; [exact Hv2|].
+    cbn [ad_sweep_ord_opt]. unfold getnth. fold o. fold d. change (ad_key o) with (adkey j).
+    rewrite (nth_setnth_same (adkey j) _ ts Hk0). fold p.
+    change (vsub x (vscal (none_ / stepsize)%num (ad_Ladj o (vsub p d)))) with x1.
+    destruct (ad_sweep_ord_opt stepsize ops dflt ord (setnth j p ds) (setnth (adkey j) p ts) x1) as [[xf ds'] ts'].
+    destruct Hres as (Hxf & Hl' & Hds' & Hlt' & Hts'). rewrite setnth_length in *.
+    repeat split; auto.
+Qed.
+Lemma ads_loop2_ord : forall ord ve le h nx log x ds,
+  (forall j, In j ord -> (j < n_ops)%nat) ->
+  vget ve "x" = Some (OCaller "x") -> lget le "duals" = Some KComp ->
+  hget h (OCaller "x") = Some x -> List.length ds = n_ops ->
+  (forall i, (i < n_ops)%nat -> hget h (OList "duals" i) = Some (nth i ds [])) ->
+  exists ve' h' nx',
+    lforl adI adkey ads_body2 ord (mk_lst ve le h nx log) = Some (mk_lst ve' le h' nx' log)
+    /\ vget ve' "x" = Some (OCaller "x")
+    /\ (let '(xf, ds') := ad_sweep_ord_ref stepsize ops dflt ord ds x in
+        hget h' (OCaller "x") = Some xf
+        /\ List.length ds' = n_ops /\ (forall i, (i < n_ops)%nat -> hget h' (OList "duals" i) = Some (nth i ds' []))).
+Proof.
+  induction ord as [|j ord IH]; intros ve le h nx log x ds Hord Hv Hl1 Hx Hlen Hds.
+  - exists ve, h, nx. cbn [lforl ad_sweep_ord_ref]. repeat split; auto.
+  - cbn [lforl]. assert (Hj : (j < n_ops)%nat) by (apply Hord; now left).
+    destruct (ads_step2 j ve le h nx log x (nth j ds []) Hv Hl1 Hx (Hds j Hj) (scalar_inner j Hj))
+      as (ve1 & h1 & E1 & Hv1 & Hx1 & Hd1 & F1).
+    rewrite E1. cbn [obind].
+    set (o := nth j ops dflt) in *. set (d := nth j ds []) in *. set (p := ad_prox o (ad_arg stepsize o d x)) in *.
+    set (x1 := adup_x1 stepsize o x d) in *.
+    destruct (IH ve1 le h1 (S (S nx)) log x1 (setnth j p ds)
+                ltac:(intros i Hi; apply Hord; now right) Hv1 Hl1 Hx1 ltac:(now rewrite setnth_length))
+      as (ve2 & h2 & nx2 & E2 & Hv2 & Hres).
+    { intros i Hi. destruct (Nat.eq_dec i j) as [->|Hne].
+      - rewrite Hd1, nth_setnth_same by lia. reflexivity.
+      - rewrite F1 by oid_neq. rewrite nth_setnth_other by exact Hne. apply Hds, Hi. }
+    exists ve2, h2, nx2. split; [exact E2|]. split; [exact Hv2|].
+    cbn [ad_sweep_ord_ref]. unfold getnth. fold o. fold d. fold p.
+    change (vsub x (vscal (none_ / stepsize)%num (ad_Ladj o (vsub p d)))) with x1.
+    destruct (ad_sweep_ord_ref stepsize ops dflt ord (setnth j p ds) x1) as [xf ds'].
+    exact Hres.
+Qed.
+
+Variable order : nat -> list nat.
+Hypothesis order_ok : forall k j, In j (order k) -> (j < n_ops)%nat.
+
+Lemma adr_outer k s x ds ts :
+  ad_store s x ds ts -> (forall j, (j < n_ops)%nat -> (adkey j < List.length ts)%nat) ->
+  let '(xf, ds', ts') := ad_opt_step_ord stepsize ops dflt (order k) (x, ds, ts) in
+  exists s', litems_ord adI adkey n_ops (order k) adupdates_random_lbody s = Some s'
+    /\ ad_store s' xf ds' ts' /\ List.length ts' = List.length ts /\ l_log s' = (l_log s ++ [xf])%list.
+Proof.
+  destruct s as [ve le h nx log]. intros (Hv & Hl1 & Hl2 & Hx & Hlen & Hds & Hts) Hk. cbn [l_venv l_lenv l_heap l_log] in *.
+  destruct adr_shapes as (-> & _). unfold ad_opt_step_ord. cbn [litems_ord].
+  destruct (ad_loop1 n_ops 0 ve le h nx log x ds eq_refl Hv Hl1 Hx Hlen Hds) as (h1 & E1 & Hx1 & F1).
+  rewrite E1. cbn [obind]. cbn [skipn] in Hx1.
+  destruct (ad_loop2_ord (order k) ve le h1 nx log _ ds ts (order_ok k) Hv Hl1 Hl2 Hx1 Hlen) as (ve2 & h2 & nx2 & E2 & Hv2 & Hres).
+  { intros i Hi. rewrite F1 by discriminate. apply Hds, Hi. }
+  { intros kk Hkk. rewrite F1 by discriminate. apply Hts, Hkk. }
+  { exact Hk. }
+  rewrite E2. cbn [obind] in *.
+  destruct (ad_sweep_ord_opt stepsize ops dflt (order k) ds ts (ad_pre stepsize ops ds x)) as [[xf ds'] ts'].
+  destruct Hres as (Hxf & Hl' & Hds' & Hlt' & Hts').
+  cbn [lexec1 resolve l_venv l_heap l_lenv l_next l_log]. rewrite Hv2. cbn [obind]. rewrite Hxf. cbn [obind litems_ord].
+  eexists. split; [reflexivity|]. split; [|split; [exact Hlt' | reflexivity]].
+  cbn [l_venv l_lenv l_heap]. repeat split; auto. rewrite Hlt'. exact Hts'.
+Qed.
+Lemma adsr_outer k s x ds :
+  ads_store s x ds ->
+  let '(xf, ds') := ad_ref_step_ord stepsize ops dflt (order k) (x, ds) in
+  exists s', litems_ord adI adkey n_ops (order k) adupdates_simple_random_lbody s = Some s'
+    /\ ads_store s' xf ds' /\ l_log s' = l_log s.
+Proof.
+  destruct s as [ve le h nx log]. intros (Hv & Hl1 & Hx & Hlen & Hds). cbn [l_venv l_lenv l_heap l_log] in *.
+  destruct adr_shapes as (_ & -> & _). unfold ad_ref_step_ord. cbn [litems_ord].
+  destruct (ad_loop1 n_ops 0 ve le h nx log x ds eq_refl Hv Hl1 Hx Hlen Hds) as (h1 & E1 & Hx1 & F1).
+  rewrite E1. cbn [obind]. cbn [skipn] in Hx1.
+  destruct (ads_loop2_ord (order k) ve le h1 nx log _ ds (order_ok k) Hv Hl1 Hx1 Hlen) as (ve2 & h2 & nx2 & E2 & Hv2 & Hres).
+  { intros i Hi. rewrite F1 by discriminate. apply Hds, Hi. }
+  rewrite E2. cbn [obind] in *.
+  destruct (ad_sweep_ord_ref stepsize ops dflt (order k) ds (ad_pre stepsize ops ds x)) as [xf ds'].
+  destruct Hres as (Hxf & Hl' & Hds').
+  eexists. split; [reflexivity|]. split; [|reflexivity]. cbn [l_venv l_lenv l_heap]. repeat split; auto.
+Qed.
+Lemma adr_iterate : forall niter k0 s x ds ts,
+  ad_store s x ds ts -> (forall j, (j < n_ops)%nat -> (adkey j < List.length ts)%nat) ->
+  exists s', literk niter k0 (fun k => litems_ord adI adkey n_ops (order k) adupdates_random_lbody) s = Some s'
+    /\ (let '(xf, ds', ts') := iterk niter k0 (fun k => ad_opt_step_ord stepsize ops dflt (order k)) (x, ds, ts) in
+        ad_store s' xf ds' ts')
+    /\ l_log s' = (l_log s ++ tracek (fun st => fst (fst st)) niter k0
+                                (fun k => ad_opt_step_ord stepsize ops dflt (order k)) (x, ds, ts))%list.
+Proof.
+  induction niter as [|niter IH]; intros k0 s x ds ts Hs Hk.
+  - exists s. cbn [literk iterk tracek]. rewrite app_nil_r. auto.
+  - cbn [literk iterk tracek]. pose proof (adr_outer k0 s x ds ts Hs Hk) as Ho.
+    destruct (ad_opt_step_ord stepsize ops dflt (order k0) (x, ds, ts)) as [[xf ds'] ts'] eqn:Est.
+    destruct Ho as (s1 & E1 & Hs1 & Hlt & Hlog). rewrite E1. cbn [obind].
+    destruct (IH (S k0) s1 xf ds' ts' Hs1 ltac:(intros j Hj; rewrite Hlt; auto)) as (s2 & E2 & Hs2 & Hlog2).
+    exists s2. split; [exact E2|]. split; [exact Hs2|]. rewrite Hlog2, Hlog, <- app_assoc. reflexivity.
+Qed.
+Lemma adsr_iterate : forall niter k0 s x ds,
+  ads_store s x ds ->
+  exists s', literk niter k0 (fun k => litems_ord adI adkey n_ops (order k) adupdates_simple_random_lbody) s = Some s'
+    /\ (let '(xf, ds') := iterk niter k0 (fun k => ad_ref_step_ord stepsize ops dflt (order k)) (x, ds) in ads_store s' xf ds')
+    /\ l_log s' = l_log s.
+Proof.
+  induction niter as [|niter IH]; intros k0 s x ds Hs.
+  - exists s. cbn [literk iterk]. auto.
+  - cbn [literk iterk]. pose proof (adsr_outer k0 s x ds Hs) as Ho.
+    destruct (ad_ref_step_ord stepsize ops dflt (order k0) (x, ds)) as [xf ds'] eqn:Est.
+    destruct Ho as (s1 & E1 & Hs1 & Hlog). rewrite E1. cbn [obind].
+    destruct (IH (S k0) s1 xf ds' Hs1) as (s2 & E2 & Hs2 & Hlog2).
+    exists s2. split; [exact E2|]. split; [exact Hs2|]. congruence.
+Qed.
+(* the two regenerated random-order programs under the same stream of permutations: same caller's x *)
+Lemma gen_adupdates_random_equiv (nkeys niter : nat) (x : Rvec) :
+  (forall j, (j < n_ops)%nat -> (adkey j < nkeys)%nat) ->
+  exists s0 s0' so sr,
+    pexec adI adkey n_ops nkeys adupdates_random_lpre (s_init x) = Some s0
+    /\ literk niter 0 (fun k => litems_ord adI adkey n_ops (order k) adupdates_random_lbody) s0 = Some so
+    /\ pexec adI adkey n_ops nkeys adupdates_simple_random_lpre (s_init x) = Some s0'
+    /\ literk niter 0 (fun k => litems_ord adI adkey n_ops (order k) adupdates_simple_random_lbody) s0' = Some sr
+    /\ List.length (l_log so) = niter
+    /\ hget (l_heap so) (OCaller "x") = hget (l_heap sr) (OCaller "x").
+Proof.
+  intros Hk. destruct adr_shapes as (_ & _ & Ep & Eps). rewrite Ep, Eps.
+  destruct (ad_pre_ok nkeys x) as (s0 & E0 & Hs0 & Hlog0). destruct (ads_pre_ok nkeys x) as (s0' & E0' & Hs0' & Hlog0').
+  destruct (adr_iterate niter 0 s0 x _ _ Hs0 ltac:(intros j Hj; rewrite repeat_length; auto)) as (so & Eo & Hso & Hlogo).
+  destruct (adsr_iterate niter 0 s0' x _ Hs0') as (sr & Er & Hsr & _).
+  exists s0, s0', so, sr. repeat (split; [assumption|]). split.
+  - rewrite Hlogo, Hlog0. cbn [app]. apply tracek_length.
+  - pose proof (ad_ord_refines stepsize ops dflt order order_ok niter 0 x (ad_duals0 ops) (repeat (junk "tmp_rans") nkeys)
+                  ltac:(intros j Hj; rewrite repeat_length; apply Hk, Hj)) as E. cbv zeta in E.
+    destruct (iterk niter 0 (fun k => ad_opt_step_ord stepsize ops dflt (order k)) (x, ad_duals0 ops, repeat (junk "tmp_rans") nkeys))
+      as [[xf ds'] ts'].
+    destruct (iterk niter 0 (fun k => ad_ref_step_ord stepsize ops dflt (order k)) (x, ad_duals0 ops)) as [xr dr].
+    cbn [fst] in E. injection E as -> ->.
+    destruct Hso as (_ & _ & _ & Hxo & _). destruct Hsr as (_ & _ & Hxr & _). congruence.
+Qed.
 End ADUPsweep.
 
 (* ================================================================ Kaczmarz *)
@@ -518,6 +698,59 @@ Proof.
   destruct (kz_pre_ok x) as (s0 & E0 & Hs0 & Hlog0).
   destruct (kz_iterate niter s0 x Hs0) as (s1 & E1 & Hs1 & Hlog1).
   exists s1. unfold lrun. rewrite E0. cbn [obind]. split; [exact E1|]. split.
+  - rewrite Hlog1, Hlog0. reflexivity.
+  - destruct Hs1 as (_ & _ & _ & _ & Hx & _). exact Hx.
+Qed.
+
+(* ------------------------------------------------ random=True *)
+Lemma kzr_shape :
+  kaczmarz_random_lbody = [IForOrd kz_body; IStmt (LCallback (RVar "x"))] /\ kaczmarz_random_lpre = kaczmarz_lpre.
+Proof. split; reflexivity. Qed.
+Lemma kz_loop_ord : forall ord s x, (forall j, In j ord -> (j < kz_n)%nat) -> kz_store s x ->
+  exists s', lforl kzI rkey kz_body ord s = Some s'
+    /\ kz_store s' (kz_step_ord proj ops dflt ord x) /\ l_log s' = l_log s.
+Proof.
+  induction ord as [|j ord IH]; intros s x Hord Hs.
+  - exists s. cbn [lforl]. unfold kz_step_ord, kz_step. cbn. auto.
+  - cbn [lforl]. destruct (kz_step_heap j s x Hs ltac:(apply Hord; now left)) as (s1 & E1 & Hs1 & Hlog1).
+    rewrite E1. cbn [obind].
+    destruct (IH s1 _ ltac:(intros i Hi; apply Hord; now right) Hs1) as (s2 & E2 & Hs2 & Hlog2).
+    exists s2. split; [exact E2|]. split; [|congruence].
+    unfold kz_step_ord, kz_step in *. cbn [map kz_sweep].
+    destruct (kz_sweep proj (map (fun i => nth i ops dflt) ord) (kz_one proj (nth j ops dflt) x)) as [xf tr]. exact Hs2.
+Qed.
+Variable order : nat -> list nat.
+Hypothesis order_ok : forall k j, In j (order k) -> (j < kz_n)%nat.
+Lemma kzr_iterate : forall niter k0 s x, kz_store s x ->
+  exists s', literk niter k0 (fun k => litems_ord kzI rkey kz_n (order k) kaczmarz_random_lbody) s = Some s'
+    /\ kz_store s' (iterk niter k0 (fun k => kz_step_ord proj ops dflt (order k)) x)
+    /\ l_log s' = (l_log s ++ tracek (fun x => x) niter k0 (fun k => kz_step_ord proj ops dflt (order k)) x)%list.
+Proof.
+  induction niter as [|niter IH]; intros k0 s x Hs.
+  - exists s. cbn [literk iterk tracek]. rewrite app_nil_r. auto.
+  - cbn [literk iterk tracek].
+    assert (Ho : exists s1, litems_ord kzI rkey kz_n (order k0) kaczmarz_random_lbody s = Some s1
+                  /\ kz_store s1 (kz_step_ord proj ops dflt (order k0) x)
+                  /\ l_log s1 = (l_log s ++ [kz_step_ord proj ops dflt (order k0) x])%list).
+    { destruct kzr_shape as [-> _]. cbn [litems_ord].
+      destruct (kz_loop_ord (order k0) s x (order_ok k0) Hs) as (s1 & E1 & Hs1 & Hlog1). rewrite E1. cbn [obind].
+      destruct s1 as [ve le h nx log]. pose proof Hs1 as (Hv & Hvt & Hl1 & Hl2 & Hx & Hrest).
+      cbn [lexec1 resolve l_venv l_heap l_lenv l_next l_log] in *. rewrite Hv. cbn [obind]. rewrite Hx. cbn [obind].
+      eexists. split; [reflexivity|]. split; [|cbn [l_log]; congruence].
+      unfold kz_store in *. cbn [l_venv l_lenv l_heap l_next] in *. exact Hs1. }
+    destruct Ho as (s1 & E1 & Hs1 & Hlog1). rewrite E1. cbn [obind].
+    destruct (IH (S k0) s1 _ Hs1) as (s2 & E2 & Hs2 & Hlog2).
+    exists s2. split; [exact E2|]. split; [exact Hs2|]. rewrite Hlog2, Hlog1, <- app_assoc. reflexivity.
+Qed.
+Lemma gen_kaczmarz_random_run niter x :
+  exists s0 s, pexec kzI rkey kz_n nkeys kaczmarz_random_lpre (kz_init x) = Some s0
+    /\ literk niter 0 (fun k => litems_ord kzI rkey kz_n (order k) kaczmarz_random_lbody) s0 = Some s
+    /\ l_log s = tracek (fun x => x) niter 0 (fun k => kz_step_ord proj ops dflt (order k)) x
+    /\ hget (l_heap s) (OCaller "x") = Some (iterk niter 0 (fun k => kz_step_ord proj ops dflt (order k)) x).
+Proof.
+  destruct kzr_shape as [_ ->]. destruct (kz_pre_ok x) as (s0 & E0 & Hs0 & Hlog0).
+  destruct (kzr_iterate niter 0 s0 x Hs0) as (s1 & E1 & Hs1 & Hlog1).
+  exists s0, s1. split; [exact E0|]. split; [exact E1|]. split.
   - rewrite Hlog1, Hlog0. reflexivity.
   - destruct Hs1 as (_ & _ & _ & _ & Hx & _). exact Hx.
 Qed.
